@@ -30,12 +30,12 @@ var propDescs = map[string]propDesc{
 		NotDecided: "fairness; the Go mutex itself.",
 	},
 	"C06": {
-		Decides:    "store precedes notify precedes unlock; every replaced radix node's channel is retained or queued; Notify closes everything queued and the root channel iff dirty; the LPM index channel is replaced per commit (or under a flag that every trie mutation sets) and the notifier closing the old one is returned; ...Watch APIs hand out the index's own channel, never a closed/fresh one; abort/pre-commit code cannot close (COMMIT-ORDER, WATCH-PAIR, NOTIFY-ALL, WATCH-ORIGIN, NOTIFY-SITES, ABORT-PURE).",
+		Decides:    "store precedes notify precedes unlock; every replaced radix node's channel is retained or queued; Notify closes everything queued and the root channel iff dirty; the LPM index channel is replaced per commit (or under a flag that every trie mutation sets) and the notifier closing the old one is returned; ...Watch APIs hand out the index's own channel, never a closed/fresh one; abort/pre-commit code cannot close; the first transaction of a tree does not take leaves for owned; (known finding) part.Txn.Get hands out a node channel without freezing the working tree (COMMIT-ORDER, WATCH-PAIR, WATCH-REG, NOTIFY-ALL, WATCH-ORIGIN, NOTIFY-SITES, ABORT-PURE, OWN-CTOR, WATCH-FREEZE).",
 		NotDecided: "that the right node's channel is chosen for a query (tree-shape dependent); dropped-node registration beyond the frozen count.",
 	},
 	"C07": {
 		Decides:    "both sources and the watch of a change iterator come from the committed root of the transaction passed in, from one table entry; Next has exactly its two return shapes; the delivering closure advances the revisions before yielding and clears the iterator only when exhausted; the two-way merge of updates and deletions (dualIterator.next) is decided completely over its finite abstract state: sources advanced exactly when needed, smaller revision first, correct side flag, only the returned slot consumed (COMMITTED-ONLY, SAME-SNAPSHOT, NEXT-SHAPE, DUAL-MERGE).",
-		NotDecided: "that each source is itself in revision order (index semantics), convergence, partial consumption accounting.",
+		NotDecided: "that each source is itself in revision order (index semantics), convergence, partial consumption accounting. Also decided: an exhausted iterator answers `nothing new` only from the snapshot it was given; the tracker name stays unique while registered; the root kept for committedRoot() is loaded after the table locks; (known finding) deletions made by the creating transaction before Changes() are lost.",
 	},
 	"C08": {
 		Decides:    "deletes go to both graveyard indexes only under trackers, re-insert cleans both, the collector re-checks by deletion-revision key and scans only up to the minimum over all trackers, triggers are non-blocking and one is requested at Start, tracker names stay unique while registered, graveyard indexes are unreachable from query/count paths (INDEX-FAMILIES/GRAVEYARD-PAIR, GC-SCAN, GRAVEYARD-REFS, TRIGGER-NONBLOCK, START-TRIGGER, CHANGES-INIT).",
@@ -50,15 +50,15 @@ var propDescs = map[string]propDesc{
 		NotDecided: "misuse by callers (user code nesting transactions); starvation.",
 	},
 	"C11": {
-		Decides:    "persistence half: no published radix node is written in place; owning constructors copy; iterators/clones freeze the transaction; committed trees start a new epoch; a committed transaction object is retired (IMMUT, OWN-CTOR, FREEZE, EPOCH, TXN-RETIRE restricted to package part); ranging over an iterator does not modify it (ITER-PURE); the traversal tests for a value with getLeaf() != nil, never isLeaf() (NODE-VALUE-TEST).",
+		Decides:    "persistence half: no published radix node is written in place; owning constructors copy; iterators/clones freeze the transaction; committed trees start a new epoch; a committed transaction object is retired (IMMUT, OWN-CTOR, FREEZE, EPOCH, TXN-RETIRE restricted to package part); ranging over an iterator does not modify it (ITER-PURE); the traversal tests for a value with getLeaf() != nil, never isLeaf() (NODE-VALUE-TEST); node conversions keep the leaf, removals clear the vacated slot (NODE-CONVERT, NODE-REMOVE); key lengths are not narrowed to 16 bits (LEN-NARROW); (known finding) forks of one Tree value cannot both be notified (CLOSE-ONCE).",
 		NotDecided: "ordered-map semantics; node-size thresholds.",
 	},
 	"C12": {
-		Decides:    "every replaced node's channel is retained or queued for closing; Notify closes all queued channels and the root channel iff dirty; dirty is set before any replacement; close() on node channels only in Notify (WATCH-PAIR, NOTIFY-ALL, NOTIFY-SITES(c)).",
+		Decides:    "every replaced node's channel is retained or queued for closing; Notify closes all queued channels and the root channel iff dirty; dirty is set before any replacement; close() on node channels only in Notify; a recycled transaction is fully reset; leaves are never taken as owned by cloneNode; (known findings) Notify's close is not idempotent across forks of one Tree value and Txn.Get does not freeze (WATCH-PAIR, WATCH-REG, NOTIFY-ALL, NOTIFY-SITES(c), TXN-RESET, OWN-CTOR, CLOSE-ONCE, WATCH-FREEZE).",
 		NotDecided: "which channel a lookup returns; dropped nodes (count only).",
 	},
 	"C13": {
-		Decides:    "persistence half (IMMUT/OWN-CTOR/FREEZE/EPOCH on package lpm and lpmEntry); descent-loop agreement: never descend past, nor return, a node the query diverged from (LPM-DIVERGE); every site that treats a trie node as a stored value tests `imaginary` first (LPM-IMAGINARY); Iterator.All leaves the iterator unmodified (ITER-PURE).",
+		Decides:    "persistence half (IMMUT/OWN-CTOR/FREEZE/EPOCH on package lpm and lpmEntry); descent-loop agreement: never descend past, nor return, a node the query diverged from (LPM-DIVERGE); every site that treats a trie node as a stored value tests `imaginary` first (LPM-IMAGINARY); Iterator.All leaves the iterator unmodified (ITER-PURE); Txn.Commit freezes the committed trie; a lookup that ends on a fork node falls back to the covering prefix; prefix-length arithmetic is not carried out in 16 bits (FREEZE, LPM-IMAGINARY, LEN-NARROW); yield results are honoured (YIELD-RETURN).",
 		NotDecided: "longest-match / ordering exactness otherwise.",
 	},
 	"C14": {
@@ -74,19 +74,19 @@ var propDescs = map[string]propDesc{
 		NotDecided: "every clause about durations: never sooner than the minimum backoff, waits that do not shrink, retry within maximum plus one round - run-time quantities with no static handle.",
 	},
 	"C17": {
-		Decides:    "the singleton pair is never mutated in place; migration-before-insert ordering; no use of a published transaction; the JSON/YAML decoders decode each element into a fresh variable (IMMUT, SINGLETON-FIRST, TXN-RETIRE, DECODE-FRESH).",
+		Decides:    "the singleton pair is never mutated in place; migration-before-insert ordering; no use of a published transaction; the JSON/YAML decoders decode each element into a fresh variable; Set.All honours yield's result; SlowEqual compares values the same way in every representation; equality never answers from the representation flags alone (IMMUT, SINGLETON-FIRST, TXN-RETIRE, DECODE-FRESH, YIELD-RETURN, REPR-EQ, EPOCH, FREEZE).",
 		NotDecided: "model exactness, representation switches, JSON/YAML round trip beyond the decode-target clause.",
 	},
 	"C18": {
-		Decides:    "the escape table extracted from appendEncode is prefix-free, order-preserving and avoids the minimal separator (exhaustive over all 256 bytes); encodedLength agrees with it; key layout/offset agreement; integer encoders and the LPM key codec are big-endian through encoding/binary and do not narrow or shift a byte out; no encoder writes through the slice it was given (ENC-FRESH) (ENC-TABLE, ENC-AGREE, ENC-LAYOUT, ENC-ENDIAN, ENC-NARROW).",
+		Decides:    "the escape table extracted from appendEncode is prefix-free, order-preserving and avoids the minimal separator (exhaustive over all 256 bytes); encodedLength agrees with it; the composite key is parsed into enc(secondary), separator, enc(primary) and a constant tail that starts below every code word (so a primary key sorts before its extensions), accessor offsets agree with the parsed layout; integer encoders and the LPM key codec are big-endian through encoding/binary and do not narrow or shift a byte out; no encoder writes through the slice it was given (ENC-FRESH) (ENC-TABLE, ENC-AGREE, ENC-LAYOUT, ENC-ENDIAN, ENC-NARROW).",
 		NotDecided: "LPM key masking arithmetic; keys of 64 KiB and more.",
 	},
 	"C19": {
-		Decides:    "copy-on-write of the pending list and initialization record; the init channel is closed only by Commit, after the root Store; `init` is cleared only when pending is empty; abort cannot affect it, and the mark-done closure keeps no state outside the transaction (IMMUT, COMMIT-ORDER, NOTIFY-SITES, ABORT-PURE, INIT-SHAPE).",
+		Decides:    "copy-on-write of the pending list and initialization record; the init channel is closed only by Commit, after the root Store; `init` is cleared only when pending is empty; abort cannot affect it, and the mark-done closure keeps no state outside the transaction; Derive reads the input's initialization from the snapshot whose changes it consumed, and an exhausted change iterator answers from the snapshot it is given (IMMUT, COMMIT-ORDER, NOTIFY-SITES, ABORT-PURE, INIT-SHAPE, DERIVE-SNAPSHOT, NEXT-SHAPE).",
 		NotDecided: "'exactly when every initializer is done' as a history property.",
 	},
 	"C20": {
-		Decides:    "removed = returned, returned is a subset of (added and selected); a nil result is always paired with the context's error; every member gets a select case; the set's fields are touched only under its mutex (WAIT-REMOVE-RETURN, GUARDED-BY).",
+		Decides:    "removed = returned, returned is a subset of (added and selected); a nil result is always paired with the context's error; every member gets a select case; the set's fields are touched only under its mutex; an empty set waits for the context; one settle deadline; (known finding) the number of select cases is not bounded - reflect.Select panics above 65536 (WAIT-REMOVE-RETURN, WAIT-SHAPE, GUARDED-BY).",
 		NotDecided: "settle-time behaviour, timing.",
 	},
 }
